@@ -63,6 +63,7 @@ type Sched struct {
 	threads []*thread
 	cur     *thread
 	Steps   int
+	SyncOps int // lock and channel operations of the modelled threads (WaitGroups, which harnesses use to join, not counted)
 	Horizon int
 	// AccessYields makes every instrumented memory access a scheduling point.
 	AccessYields bool
@@ -248,6 +249,9 @@ func (s *Sched) yield(t *thread, pred func() bool, what string) {
 		panic(abortSentinel{})
 	}
 	s.Steps++
+	if strings.HasPrefix(what, "Mutex.") || strings.HasPrefix(what, "RWMutex.") || strings.HasPrefix(what, "chan ") {
+		s.SyncOps++
+	}
 	if s.Steps > s.Horizon {
 		s.HorizonHit = true
 		s.aborted = true
